@@ -150,6 +150,45 @@ func runShard(args []string) (code int) {
 			res.Exhaustive = false
 		}
 	}
+	if c.Gen != nil {
+		ex := explore.New(deadline)
+		c.Gen(*tier, *shard, *n, func(sc *world.Scenario) bool {
+			if time.Now().After(deadline) {
+				ex.Stats.Capped = append(ex.Stats.Capped, "generator stopped at "+sc.Name)
+				return false
+			}
+			ex.Explore(sc)
+			return true
+		})
+		st := ex.Stats
+		res.Execs += st.Execs
+		res.Transitions += st.Transitions
+		res.States += st.States
+		res.Steps += st.Steps
+		res.Replayed += st.Replayed
+		res.Scenarios += st.Scenarios
+		res.HorizonHits += st.HorizonHits
+		if st.MaxDepth > res.MaxDepth {
+			res.MaxDepth = st.MaxDepth
+		}
+		res.Capped = append(res.Capped, st.Capped...)
+		res.Samples = append(res.Samples, st.Samples...)
+		for k, v := range st.BoundDone {
+			res.BoundDone[k] = v
+		}
+		for k := range st.Outcomes {
+			res.Outcomes = append(res.Outcomes, k)
+		}
+		for k := range st.Nontrivial {
+			res.Nontrivial = append(res.Nontrivial, k)
+		}
+		for _, f := range ex.Found {
+			res.Found = append(res.Found, f)
+		}
+		if len(st.Capped) > 0 {
+			res.Exhaustive = false
+		}
+	}
 	if c.Seq != nil {
 		c.Seq(*tier, *shard, *n, deadline, res)
 	}
@@ -386,6 +425,11 @@ type replayFile struct {
 }
 
 func findScenario(c *checks.Check, tier, name string) *world.Scenario {
+	if c.FromName != nil {
+		if sc := c.FromName(name); sc != nil {
+			return sc
+		}
+	}
 	if c.Scenarios == nil {
 		return nil
 	}
